@@ -55,7 +55,8 @@ fn esc_line(s: &str) -> String {
     s.replace('\\', "\\\\").replace('\t', "\\t").replace('\n', "\\n")
 }
 
-const TOKS: [&str; 9] = ["a", "/", "~", "$V1", "${V1}", "$V2", "$", "${}", "$UNSET"];
+// ("é": literal text that is not ASCII, next to every kind of variable reference)
+const TOKS: [&str; 10] = ["a", "/", "~", "$V1", "${V1}", "$V2", "$", "${}", "$UNSET", "é"];
 
 // ---------------------------------------------------------------------------------------------
 // Child side
@@ -202,6 +203,9 @@ fn tmpl_class(t: &str) -> String {
     }
     if t.ends_with('$') || t.contains("$/") || t.contains("$$") {
         v.push("bare-dollar");
+    }
+    if t.contains('é') && !v.is_empty() {
+        v.push("non-ascii-text");
     }
     if v.is_empty() {
         "literal".into()
@@ -410,6 +414,10 @@ fn c18(ctx: &Ctx, rep: &mut Report) {
             let mut v = list_vals("c1", "c2");
             v.push(Some(format!("{}:{}", d("c1"), d("ch"))));
             v.push(Some(format!("{}:{}:{}", d("ch"), d("c1"), d("ch"))));
+            // directories that are not spelled cleanly: the lookup goes through the filesystem's own path resolution
+            // like any other call, and what is returned is the directory as it was listed
+            v.push(Some(format!("{}/../c2", d("c1"))));
+            v.push(Some(format!("{}//c1/.:{}/", sb, d("c2"))));
             v
         }),
         ("XDG_DATA_DIRS", list_vals("d1", "d2")),
@@ -555,7 +563,7 @@ fn c18(ctx: &Ctx, rep: &mut Report) {
                         _ => list.push("/etc/xdg".into()),
                     }
                     // an empty candidate resolves against the (empty) cwd and /etc/xdg never holds the file
-                    let hit = list.iter().find(|c| !c.is_empty() && holders.iter().any(|h| h == *c));
+                    let hit = list.iter().find(|c| !c.is_empty() && holders.iter().any(|h| *h == crate::refs::go_clean(c)));
                     let pos = hit.map(|h| list.iter().position(|c| c == h).unwrap());
                     (
                         match hit {
